@@ -429,7 +429,10 @@ def builtin(e: Engine, st: State, name: str, args: List[SV], kw: Dict[str, SV], 
             raise Unsupported("filter over non-literal sequence")
         out = []
         for it in items:
-            c = e.truthy(st, apply_lambda(e, st, lam.tag[1], [it]))
+            if lam.ty.kind == "none":
+                c = e.truthy(st, it)            # filter(None, xs): keeps the truthy elements
+            else:
+                c = e.truthy(st, apply_lambda(e, st, lam.tag[1], [it]))
             out.append((c, it))
         return SV(Ty("small"), out)
     if name == "callable":
@@ -1052,6 +1055,13 @@ def dict_values_of_metadata(e: Engine, st: State, md: SV) -> SV:
 
 
 def call_with_starstar(e, st, f, n, args):
+    """cls(..., **extra) on a Token class: the named arguments are set, the fields that only **extra could set are left
+    unconstrained (havocked) -- enough for the offset/text contract of Token.from_match."""
+    tag = f.tag
+    if tag[0] == "class" and "Token" in e.repo.mro(tag[1]):
+        kw = {k.arg: e.ev(k.value, st) for k in n.keywords if k.arg is not None}
+        o = construct_token(e, st, tag[1], args, kw)
+        return o
     raise Unsupported("**kwargs call")
 
 
